@@ -13,7 +13,43 @@ from . import common as C
 from . import fsrec as F
 
 DS = 'ds'
-MODES = ('inside', 'uuid', 'flat')
+UUID1 = '00005eed-0000-4000-8000-000000000001'     # the first uuid4 under deterministic_uuid
+# mode -> (tempdir_format below the scratch root, parent directory of the per-partition temp
+#          directories, prefix of their leaf name).  'sib*' and 'subdir' are OUTSIDE the dataset
+#          but share a string prefix with its path ("ds"): a path is inside another only
+#          component-wise, never by string prefix.
+TMPSPEC = {
+    'inside': None,
+    'uuid': ('tmp/{uuid}/t{partition}', 'tmp/' + UUID1, 't'),
+    'flat': ('t{partition}', '', 't'),
+    'sib': (DS + '.tmp-{partition}', '', DS + '.tmp-'),
+    'sibuuid': (DS + '.tmp-{uuid}-{partition}', '', DS + '.tmp-' + UUID1 + '-'),
+    'subdir': (DS + '-tmp/{partition}', DS + '-tmp', ''),
+}
+MODES = ('inside', 'uuid', 'flat', 'sib', 'sibuuid', 'subdir')
+OLD_MODES = ('inside', 'uuid', 'flat')
+RX_PARTDIR = re.compile(r'^part\.(\d+)\.parquet$')
+
+
+def leaf_prefix(mode):
+    return 't' if TMPSPEC[mode] is None else TMPSPEC[mode][2]
+
+
+def leaf_rx(mode):
+    """the last component of the temp directory of output <n>"""
+    if TMPSPEC[mode] is None:
+        return RX_PARTDIR
+    return re.compile('^' + re.escape(TMPSPEC[mode][2]) + r'(\d+)$')
+
+
+def tmp_dir_rx(mode):
+    """the path (below the scratch root) of the temp directory of output <n>"""
+    if TMPSPEC[mode] is None:
+        return re.compile(r'^%s/part\.(\d+)\.parquet$' % re.escape(DS))
+    _, par, pre = TMPSPEC[mode]
+    return re.compile('^' + re.escape(par + '/' if par else '') + re.escape(pre) + r'(\d+)$')
+
+
 PK_IMPORTS = 'Model.FS Model.PackFS'
 
 
@@ -67,13 +103,9 @@ def row_key(df):
 # one real run
 # --------------------------------------------------------------------------
 def tempdir_format(root, mode):
-    if mode == 'inside':
+    if TMPSPEC[mode] is None:
         return None
-    if mode == 'uuid':
-        return os.path.join(root, 'tmp', '{uuid}', 't{partition}')
-    if mode == 'flat':
-        return os.path.join(root, 't{partition}')
-    raise ValueError(mode)
+    return os.path.join(root, TMPSPEC[mode][0])
 
 
 class Observed:
@@ -131,6 +163,7 @@ def run_pack(root, df, cuts, k, mode, compression='snappy', overwrite=False, pla
     returned DaskGeoDataFrame or None), trace, fired, cells {(i,N): [rids]}, tmp_parent
     (relative path of the external temp parent, None for inside)"""
     import dask
+    F.set_tmp_prefix(leaf_prefix(mode))
     fs = F.RecFS(root, plan=plan)
     o = Observed()
     o.cells = {}
@@ -141,7 +174,7 @@ def run_pack(root, df, cuts, k, mode, compression='snappy', overwrite=False, pla
         if not m or len(comps) < 2:
             return
         par = comps[-2]
-        mp = re.match(r'^part\.(\d+)\.parquet$', par) if mode == 'inside' else re.match(r'^t(\d+)$', par)
+        mp = leaf_rx(mode).match(par)
         if not mp:
             return
         rids = read_rids(os.path.join(root, rp))
@@ -165,17 +198,7 @@ def run_pack(root, df, cuts, k, mode, compression='snappy', overwrite=False, pla
     fs.plan = {}
     o.trace = [t for t in fs.trace if t[0] != 'invalidate_cache']
     o.fired = list(fs.fired)
-    o.tmp_parent = None
-    if mode == 'flat':
-        o.tmp_parent = ''
-    elif mode == 'uuid':
-        # the dataset uuid is the first uuid4 of the call (deterministic_uuid); the trace confirms it
-        o.tmp_parent = 'tmp/00005eed-0000-4000-8000-000000000001'
-        for t in o.trace:
-            m = re.match(r'^(tmp/[^/]+)/t\d+$', t[1]) if len(t) > 1 else None
-            if t[0] == 'makedirs' and m:
-                o.tmp_parent = m.group(1)
-                break
+    o.tmp_parent = None if TMPSPEC[mode] is None else TMPSPEC[mode][1]
     return o
 
 
@@ -183,13 +206,15 @@ def assignment_of(o, nin, mode, kinds=('open_w',)):
     """asg[i] = sorted outputs N for which a sub-part (i, N) was written (from the trace)"""
     asg = [set() for _ in range(nin)]
     iorder, corder = [], []
-    rx_sub = re.compile(r'^(?:.*/)?(part\.(\d+)\.parquet|t(\d+))/part(\d+)\.parquet$')
+    rx_dir, rx_file = leaf_rx(mode), re.compile(r'^part(\d+)\.parquet$')
     for t in o.trace:
         if t[0] == 'open_w':
-            m = rx_sub.match(t[1])
-            if m:
-                N = int(m.group(2) if m.group(2) is not None else m.group(3))
-                i = int(m.group(4))
+            comps = t[1].split('/')
+            if len(comps) < 2:
+                continue
+            md, mf = rx_dir.match(comps[-2]), rx_file.match(comps[-1])
+            if md and mf and tmp_dir_rx(mode).match('/'.join(comps[:-1])):
+                N, i = int(md.group(1)), int(mf.group(1))
                 asg[i].add(N)
                 if i not in iorder:
                     iorder.append(i)
@@ -202,11 +227,7 @@ def concat_order(o, k, mode):
     last_mk = max([j for j, t in enumerate(o.trace) if t[0] == 'makedirs'], default=-1)
     order = []
     rx_out = re.compile(r'^%s/part\.(\d+)\.parquet$' % DS)
-    if mode == 'inside':
-        rx_tmp = rx_out
-    else:
-        pre = (o.tmp_parent + '/') if o.tmp_parent else ''
-        rx_tmp = re.compile(r'^%st(\d+)$' % re.escape(pre))
+    rx_tmp = tmp_dir_rx(mode)
     for t in o.trace[last_mk + 1:]:
         m = None
         if t[0] == 'isfile':
